@@ -17,6 +17,21 @@ func verifStr(tag string) string {
 	return string(b)
 }
 
+// verifVarU64: a symbolic integer inside one chosen varint size class, so
+// that the encoder's length loop does not fork ten ways per value.
+func verifVarU64(tag string) uint64 {
+	switch verifChoice(tag+".class", verifBound("intclasses", 2)) {
+	case 0:
+		return uint64(verifU8(tag) & 0x7F) // 1-byte varint
+	case 1:
+		return uint64(1)<<63 | verifU64(tag)>>1 // 10-byte varint, top bit set
+	default:
+		return 1<<14 | uint64(verifU16(tag)&0x3FFF) // 3-byte varint
+	}
+}
+
+func verifVarI64(tag string) int64 { return int64(verifVarU64(tag)) }
+
 func verifU64s(tag string) []uint64 {
 	n := verifChoice(tag+".n", verifBound("slice", 2)+1)
 	if n == 0 {
@@ -24,7 +39,7 @@ func verifU64s(tag string) []uint64 {
 	}
 	a := make([]uint64, n)
 	for i := range a {
-		a[i] = verifU64(tag)
+		a[i] = verifVarU64(tag)
 	}
 	return a
 }
@@ -36,7 +51,7 @@ func verifI64s(tag string) []int64 {
 	}
 	a := make([]int64, n)
 	for i := range a {
-		a[i] = verifI64(tag)
+		a[i] = verifVarI64(tag)
 	}
 	return a
 }
@@ -80,7 +95,7 @@ func VerifH27Messages() {
 	var s Serializer
 	switch verifChoice("type", verifBound("types", 12)) {
 	case 0:
-		m := &pilosa.CreateShardMessage{Index: verifStr("index"), Field: verifStr("field"), Shard: verifU64("shard")}
+		m := &pilosa.CreateShardMessage{Index: verifStr("index"), Field: verifStr("field"), Shard: verifVarU64("shard")}
 		buf, err := s.Marshal(m)
 		verifAssert(err == nil, "marshal: no error")
 		var o pilosa.CreateShardMessage
@@ -94,14 +109,14 @@ func VerifH27Messages() {
 		verifAssert(s.Unmarshal(buf, &o) == nil, "unmarshal: no error")
 		verifAssert(verifAnd(o.Index == m.Index, verifAnd(o.Field == m.Field, o.View == m.View)), "DeleteViewMessage survives encoding")
 	case 2:
-		m := &pilosa.ResizeInstructionComplete{JobID: verifI64("job"), Node: verifNode(), Error: verifStr("error")}
+		m := &pilosa.ResizeInstructionComplete{JobID: verifVarI64("job"), Node: verifNode(), Error: verifStr("error")}
 		buf, err := s.Marshal(m)
 		verifAssert(err == nil, "marshal: no error")
 		var o pilosa.ResizeInstructionComplete
 		verifAssert(s.Unmarshal(buf, &o) == nil, "unmarshal: no error")
 		verifAssert(verifAnd(o.JobID == m.JobID, verifAnd(o.Error == m.Error, verifEqNode(o.Node, m.Node))), "ResizeInstructionComplete survives encoding")
 	case 3:
-		m := &pilosa.ImportRequest{Index: verifStr("index"), Field: verifStr("field"), Shard: verifU64("shard"),
+		m := &pilosa.ImportRequest{Index: verifStr("index"), Field: verifStr("field"), Shard: verifVarU64("shard"),
 			RowIDs: verifU64s("rows"), ColumnIDs: verifU64s("cols"), Timestamps: verifI64s("ts")}
 		buf, err := s.Marshal(m)
 		verifAssert(err == nil, "marshal: no error")
@@ -111,7 +126,7 @@ func VerifH27Messages() {
 		ok = verifAnd(ok, verifAnd(verifEqU64s(o.RowIDs, m.RowIDs), verifAnd(verifEqU64s(o.ColumnIDs, m.ColumnIDs), verifEqI64s(o.Timestamps, m.Timestamps))))
 		verifAssert(ok, "ImportRequest survives encoding")
 	case 4:
-		m := &pilosa.ImportValueRequest{Index: verifStr("index"), Field: verifStr("field"), Shard: verifU64("shard"),
+		m := &pilosa.ImportValueRequest{Index: verifStr("index"), Field: verifStr("field"), Shard: verifVarU64("shard"),
 			ColumnIDs: verifU64s("cols"), Values: verifI64s("vals")}
 		buf, err := s.Marshal(m)
 		verifAssert(err == nil, "marshal: no error")
@@ -121,7 +136,7 @@ func VerifH27Messages() {
 		ok = verifAnd(ok, verifAnd(verifEqU64s(o.ColumnIDs, m.ColumnIDs), verifEqI64s(o.Values, m.Values)))
 		verifAssert(ok, "ImportValueRequest survives encoding")
 	case 5:
-		m := &pilosa.BlockDataRequest{Index: verifStr("index"), Field: verifStr("field"), View: verifStr("view"), Shard: verifU64("shard"), Block: verifU64("block")}
+		m := &pilosa.BlockDataRequest{Index: verifStr("index"), Field: verifStr("field"), View: verifStr("view"), Shard: verifVarU64("shard"), Block: verifVarU64("block")}
 		buf, err := s.Marshal(m)
 		verifAssert(err == nil, "marshal: no error")
 		var o pilosa.BlockDataRequest
@@ -168,10 +183,10 @@ func VerifH27Messages() {
 		verifAssert(ok, "QueryRequest survives encoding")
 	case 11:
 		// query results: ValCount, count, bool, pairs, row ids
-		vc := pilosa.ValCount{Val: verifI64("val"), Count: verifI64("count")}
-		n := verifU64("n")
+		vc := pilosa.ValCount{Val: verifVarI64("val"), Count: verifVarI64("count")}
+		n := verifVarU64("n")
 		b := verifBool("b")
-		pairs := []pilosa.Pair{{ID: verifU64("pid"), Count: verifU64("pcount")}}
+		pairs := []pilosa.Pair{{ID: verifVarU64("pid"), Count: verifVarU64("pcount")}}
 		ids := pilosa.RowIDs(verifU64s("rowids"))
 		m := &pilosa.QueryResponse{Results: []interface{}{vc, n, b, pairs, ids}}
 		buf, err := s.Marshal(m)
